@@ -387,16 +387,16 @@ Proof.
 Qed.
 
 (* ------------------------------------------------------------------ *)
-(* HedValidator.run_full_string_checks as a whole (repaired code)      *)
+(* HedValidator.run_full_string_checks as a whole (code as it is)      *)
 (* ------------------------------------------------------------------ *)
 
 Lemma full_checks_perm_fixed nr nu top top' :
-  PermForest top top' -> forallb wft top = true -> forallb noempty_t top = true -> okl top = true ->
+  PermForest top top' -> forallb wft top = true -> okl top = true ->
   exists l l', full_string_checks Fx nr nu top = Ok l /\ full_string_checks Fx nr nu top' = Ok l' /\
                Permutation (map code_of l) (map code_of l').
 Proof.
-  intros Hp Hw Hn Hok.
-  destruct (group_checks_perm_fixed nr nu _ _ Hp Hw Hn) as (l & l' & E & E' & P).
+  intros Hp Hw Hok.
+  destruct (group_checks_perm_fixed nr nu _ _ Hp Hw) as (l & l' & E & E' & P).
   unfold full_string_checks. rewrite E, E'. cbn [bind].
   eexists; eexists; split; [reflexivity|split; [reflexivity|]].
   rewrite !map_app. apply Permutation_app; [apply Permutation_map; exact P|].
@@ -404,11 +404,21 @@ Proof.
 Qed.
 
 Lemma full_checks_respell_fixed nr nu top top' :
-  Respell top top' -> forallb wft top = true -> forallb noempty_t top = true ->
+  Respell top top' -> forallb wft top = true ->
   exists l, full_string_checks Fx nr nu top = Ok l /\ full_string_checks Fx nr nu top' = Ok l.
 Proof.
-  intros Hr Hw Hn.
-  destruct (group_checks_respell_fixed nr nu _ _ Hr Hw Hn) as (l & E & E').
+  intros Hr Hw.
+  destruct (group_checks_respell_fixed nr nu _ _ Hr Hw) as (l & E & E').
   unfold full_string_checks. rewrite E, E'. cbn [bind]. rewrite (onset_respell _ _ Hr).
   eexists; split; reflexivity.
 Qed.
+
+(* the code as it is: the full-string checks never raise *)
+Lemma full_checks_never_raise nr nu top : exists iss, full_string_checks Fx nr nu top = Ok iss.
+Proof.
+  destruct (group_checks_never_raise nr nu top) as [l E].
+  unfold full_string_checks. rewrite E. cbn [bind]. eexists. reflexivity.
+Qed.
+
+Lemma empty_group_code : code_of K_GROUP_EMPTY = 1.
+Proof. reflexivity. Qed.
